@@ -60,3 +60,8 @@ claimed["C13"] = dict(engine="engine-I", category="model_checking",
   text="for snps, variants (GenBank/GFF3, reference record at first/middle/last position) and sam variants: every alignment of 1..4 sequences from a 6-row menu x --append-snps x every threshold in {0, 1, each occurring frequency as the same float64 quotient, its two neighbouring floats, midpoints}, plus n=1..60 sequences with k=1..n carriers at thresholds k/n and neighbours; the aggregate output must equal the counted per-sequence output",
   note="trusted: the per-sequence mode (judged against models by C03-C05); order among equal positions is C12's subject",
   design_ref="DESIGN.md 3 (C13)")
+claimed["C15"] = dict(engine="engine-I", category="model_checking",
+  technique="bounded-exhaustive metamorphic relations between runs of the real code (in-process under the controlled scheduler; legacy flags and stdin through the real binary)",
+  text="every window (each bound alone too), pad on/off and every wrap width on 12 representative SAM files for toMultiAlign and toPairAlign; every window on 8 annotation layouts and on a SAM file for variants / sam variants; legacy --trim flags vs --start/--end for every window and refusal of mixing; pipe vs file input for every layout; each relation compares the option run with the transformed unrestricted run",
+  note="trusted: the transformations (column slice, reference-column cut, position filter with p = first base of the codon) in harness/c15.go; join-straddling codons not judged",
+  design_ref="DESIGN.md 3 (C15)")
